@@ -3,11 +3,22 @@
 Correspondence: heap state-diff around every call (everything reachable from the element tree,
 private attributes included, plus the library's module state), the input value, and the model's
 view of the tree (`dump_elem`) before and after; results of repeated calls.  Oracle: equality
-with a fresh copy, `serialize_json` / `serialize_python` text before and after."""
+with a fresh copy, `serialize_json` / `serialize_python` text before and after.
+
+Ambient family: the statement quantifies over every validation call, wherever it is made.  What a
+call "gives" is whatever comes back to the caller - a result, a rejection, or anything else that
+escapes - and that depends on the process the caller runs in: with warnings escalated to errors
+(`-W error`, pytest `filterwarnings = error`) a warning the library emits IS the verdict of the call.
+So histories are also run under that regime (one regime per history, every value repeated, so that
+every call is compared with an identical earlier call made under identical ambient conditions), on
+trees rich in the keywords whose checkers live in module-level registries (`format` with names from
+an open vocabulary: registered, well known but unregistered, and never seen before in the process).
+The family runs before everything else so that its first calls are the first calls of the process."""
 import copy
 import random
+import warnings
 
-from harness import core, dsl, statediff
+from harness import core, dsl, gen, statediff
 from harness.framework import Outcome
 from harness.gen import SchemaGen, ValueGen
 
@@ -72,8 +83,45 @@ def dump_to_schema(d):
     return out
 
 
-def check_tree(drv, el, dump, values, out, stats, origin):
-    """Run the purity checks on one element tree with a sequence of values."""
+def ambient_call(el, v, regime):
+    """One validation call under an ambient warnings regime.  "ignore": `core.real_call` (warnings silenced).
+    "error": warnings escalated to errors, as under `-W error`; the outcome has the shape of `core.real_call`'s
+    (so `ok` / `reject` outcomes stay comparable with the model), a warning that escapes is the outcome
+    `{"r": "warning", ...}`."""
+    if regime == "ignore":
+        return core.real_call(el, v)
+    from statham.schema.exceptions import ValidationError
+    given = v if isinstance(v, core.NotPassed) else copy.deepcopy(v)
+    try:
+        with warnings.catch_warnings():
+            warnings.simplefilter("error")
+            res = el(core.NP) if isinstance(v, core.NotPassed) else el(given)
+        real = {"r": "ok", "v": core.canon_rval(res)}
+    except Warning as exc:
+        real = {"r": "warning", "category": type(exc).__name__, "msg": str(exc)[:200]}
+    except ValidationError:
+        real = {"r": "reject"}
+    except TypeError as exc:
+        real = {"r": "typeError", "msg": str(exc)[:200]}
+    except (OverflowError, ZeroDivisionError) as exc:
+        real = {"r": "crash", "exc": type(exc).__name__}
+    except RecursionError:
+        real = {"r": "recursion"}
+    except Exception as exc:  # noqa: BLE001 - every other escaping exception is an observation
+        real = {"r": "exc", "exc": type(exc).__name__, "msg": str(exc)[:200]}
+    if not isinstance(v, core.NotPassed):
+        try:
+            same = core._same_value(given, v)  # pylint: disable=protected-access
+        except Exception:  # noqa: BLE001
+            same = False
+        if not same:
+            real["input_altered"] = True
+    return real
+
+
+def check_tree(drv, el, dump, values, out, stats, origin, regime="ignore", repeat=3):
+    """Run the purity checks on one element tree with a sequence of values: the values, then the first `repeat`
+    of them again (None: all of them), every call made under the ambient warnings regime `regime`."""
     fresh = safe(dsl.build, dump)
     eq0 = fresh[0] == "ok" and (el == fresh[1])
     snap0 = statediff.snapshot(el)
@@ -98,12 +146,14 @@ def check_tree(drv, el, dump, values, out, stats, origin):
             model = rep["results"]
         else:
             stats["driver-error"] = stats.get("driver-error", 0) + 1
-    seq = list(values) + list(values[:3])
+    seq = list(values) + list(values[:repeat])
     results = {}
     for idx, v in enumerate(seq):
         case = {"origin": origin, "element": dump, "values": [core.enc_arg(x) if not isinstance(x, core.NotPassed) else {"np": 1} for x in seq[:idx + 1]]}
+        if regime != "ignore":
+            case["regime"] = regime
         vcopy = copy.deepcopy(v)
-        real = core.real_call(el, v)
+        real = ambient_call(el, v, regime)
         out.note_case({"element": dump, "value": case["values"][-1]}, True)
         stats["verdict-" + real["r"]] = stats.get("verdict-" + real["r"], 0) + 1
         if real.pop("input_altered", False) or (not isinstance(v, core.NotPassed) and core.enc_val(v) != core.enc_val(vcopy)):
@@ -118,15 +168,24 @@ def check_tree(drv, el, dump, values, out, stats, origin):
             mod0 = mod
         key = repr(case["values"][-1])
         if key in results and results[key] != real:
-            out.failures.append({"case": case, "what": f"repeated call differs: {results[key]} then {real}", "finding": None})
+            where = "" if regime == "ignore" else f" (both calls with warnings escalated to errors, regime {regime!r})"
+            out.failures.append({"case": case, "what": f"repeated call differs: {results[key]} then {real}" + where, "finding": None})
         results.setdefault(key, real)
         if model is not None and idx < len(values) and model[idx]["r"] != "crash" and real["r"] in ("ok", "reject") and model[idx] != real:
             out.disagreements.append({"what": "call result (DSL tree)", "impl": real, "model": model[idx], **case})
     out.traces_validated += 1
-    after = core.dump_elem(el)
+    try:
+        after = core.dump_elem(el)
+    except Exception as exc:  # noqa: BLE001 - the tree could be dumped before the calls (that is where `dump` comes from)
+        after = {"undumpable": f"{type(exc).__name__}: {exc}"[:200]}
     case = {"origin": origin, "element": dump, "values": [core.enc_arg(x) if not isinstance(x, core.NotPassed) else {"np": 1} for x in seq]}
+    if regime != "ignore":
+        case["regime"] = regime
     if after != dump:
-        out.failures.append({"case": case, "what": "the element's configuration changed (dump before != dump after)", "finding": None})
+        what = "the element's configuration changed (dump before != dump after)"
+        if "undumpable" in after:
+            what = "the element's configuration changed: it can no longer be dumped (" + after["undumpable"] + ")"
+        out.failures.append({"case": case, "what": what, "finding": None})
     obs1 = observables(el)
     for k in obs0:
         if obs0[k] != obs1[k]:
@@ -135,16 +194,159 @@ def check_tree(drv, el, dump, values, out, stats, origin):
         out.failures.append({"case": case, "what": "element no longer equals a fresh copy", "finding": None})
 
 
+# format names: the two the library registers, names JSON Schema defines but the library has no checker for, and
+# (built in `format_name`) names nobody has heard of - the keyword takes any string
+REGISTERED_FORMATS = ["uuid", "date-time"]
+WELL_KNOWN_FORMATS = ["hostname", "email", "ipv4", "ipv6", "uri", "uri-reference", "date", "time", "regex",
+                      "json-pointer", "idn-email", "iri", "uri-template"]
+N_AMBIENT = {"quick": 60, "thorough": 1500}
+REGIMES = ["error", "error", "error", "ignore"]
+
+
+def format_name(rng):
+    k = rng.random()
+    if k < 0.15:
+        return rng.choice(REGISTERED_FORMATS)
+    if k < 0.45:
+        return rng.choice(WELL_KNOWN_FORMATS)
+    if k < 0.75:
+        return rng.choice(WELL_KNOWN_FORMATS + ["x"]) + "-" + "".join(rng.choice("abcdefghijklmnopqrstuvwxyz0123456789") for _ in range(rng.randint(1, 6)))
+    return "".join(rng.choice("abcdefghijklmnopqrstuvwxyz-_ 0123456789é") for _ in range(rng.randint(1, 10)))
+
+
+def format_leaf(rng):
+    s = rng.choice([{"type": "string"}, {"type": "string"}, {}, {"type": ["string", "null"]}, {"type": ["integer", "string"]}])
+    s = dict(s)
+    s["format"] = format_name(rng)
+    k = rng.random()
+    if k < 0.2:
+        s["minLength"] = rng.choice([0, 1, 2])
+    elif k < 0.3:
+        s["maxLength"] = rng.choice([3, 10, 40])
+    elif k < 0.4:
+        s["pattern"] = rng.choice(["^a", ".", "[a-z]"])
+    return s
+
+
+def format_tree(rng, depth, titles):
+    """A schema in which a string can reach a `format` checker through every kind of position a sub-schema can be in."""
+    if depth <= 0:
+        return format_leaf(rng)
+    sub = lambda: format_tree(rng, depth - rng.choice([1, 1, 2]), titles)  # noqa: E731
+    other = lambda: rng.choice([{"type": "integer", "minimum": 1}, {"type": "null"}, {"type": "boolean"}, {"type": "string", "maxLength": 2},  # noqa: E731
+                                format_leaf(rng)])
+
+    def title():
+        titles[0] += 1
+        return f"Amb{titles[0]}"
+
+    shape = rng.choice(["leaf", "items", "items", "tuple", "contains", "props", "props", "addProps", "patProps", "propNames",
+                        "deps", "anyOf", "oneOf", "allOf", "not"])
+    if shape == "leaf":
+        return format_leaf(rng)
+    if shape == "items":
+        s = {"type": "array", "items": sub()}
+        if rng.random() < 0.5:
+            s["minItems"] = 1
+        return s
+    if shape == "tuple":
+        s = {"type": "array", "items": [sub(), other()]}
+        if rng.random() < 0.5:
+            s["additionalItems"] = format_leaf(rng)
+        return s
+    if shape == "contains":
+        return {"type": "array", "contains": sub()}
+    if shape == "props":
+        names = rng.sample(gen.PROP_NAMES, rng.choice([1, 2, 3]))
+        s = {"type": "object", "title": title(), "properties": {names[0]: sub()}}
+        for n in names[1:]:
+            s["properties"][n] = other()
+        if rng.random() < 0.6:
+            s["required"] = [names[0]]
+        return s
+    if shape == "addProps":
+        return {"type": "object", "title": title(), "additionalProperties": sub()}
+    if shape == "patProps":
+        return {"type": "object", "title": title(), "patternProperties": {rng.choice(["^a", "b$", "."]): sub()}}
+    if shape == "propNames":
+        return {"type": "object", "title": title(), "propertyNames": format_leaf(rng)}
+    if shape == "deps":
+        return {"type": "object", "title": title(), "dependencies": {rng.choice(["a", "b"]): sub()}}
+    if shape in ("anyOf", "oneOf", "allOf"):
+        members = [sub()] + [other() for _ in range(rng.choice([0, 1, 2]))]
+        rng.shuffle(members)
+        return {shape: members}
+    return {"not": sub()}
+
+
+def sprinkle_formats(rng, schema):
+    """Give the string-constraining sub-schemas of a generated schema formats from the open vocabulary (in place)."""
+    count = 0
+    if isinstance(schema, dict):
+        t = schema.get("type")
+        stringy = t == "string" or (isinstance(t, list) and "string" in t) or any(k in schema for k in ("minLength", "maxLength", "pattern", "format"))
+        if "format" in schema or (stringy and rng.random() < 0.7) or (t is None and rng.random() < 0.1):
+            schema["format"] = format_name(rng)
+            count += 1
+        for key, v in list(schema.items()):
+            if key in ("items", "additionalItems", "contains", "additionalProperties", "propertyNames", "not"):
+                if isinstance(v, list):
+                    count += sum(sprinkle_formats(rng, x) for x in v)
+                else:
+                    count += sprinkle_formats(rng, v)
+            elif key in ("anyOf", "oneOf", "allOf") and isinstance(v, list):
+                count += sum(sprinkle_formats(rng, x) for x in v)
+            elif key in ("properties", "patternProperties", "dependencies") and isinstance(v, dict):
+                count += sum(sprinkle_formats(rng, x) for x in v.values())
+    return count
+
+
+def ambient_family(ctx, rng, drv, sg, vg, out, stats, n):
+    """Histories under an ambient warnings regime on format-rich trees; every value is validated (at least) twice."""
+    titles = [0]
+    for i in range(n):
+        if i % 2 == 0:
+            schema = format_tree(rng, rng.choice([1, 2, 2, 3]), titles)
+            origin = "ambient-directed"
+        else:
+            schema = sg.schema()
+            if not sprinkle_formats(rng, schema):
+                schema = {"anyOf": [schema, format_leaf(rng)]} if rng.random() < 0.5 else {"type": "array", "items": format_leaf(rng)}
+            origin = "ambient-generated"
+        status, el = core.real_parse(schema)
+        if status != "ok":
+            stats["ambient-parse-" + status] = stats.get("ambient-parse-" + status, 0) + 1
+            continue
+        dump = core.dump_elem(el)
+        values = vg.values(schema, 7) + [rng.choice(gen.STRINGS), core.NP]
+        regime = rng.choice(REGIMES)
+        stats[origin] = stats.get(origin, 0) + 1
+        stats["ambient-regime-" + regime] = stats.get("ambient-regime-" + regime, 0) + 1
+        _, fmts = core.elem_patterns_formats(el)
+        for f in fmts:
+            kind = "registered" if f in REGISTERED_FORMATS else "well-known" if f in WELL_KNOWN_FORMATS else "novel"
+            stats["ambient-format-" + kind] = stats.get("ambient-format-" + kind, 0) + 1
+        sub = {}
+        check_tree(drv, el, dump, values, out, sub, origin, regime=regime, repeat=None)
+        for k, v in sub.items():
+            # verdicts of this family are counted apart: `warning` is a verdict only a non-default regime can give
+            stats["ambient-" + k] = stats.get("ambient-" + k, 0) + v
+
+
 def run(ctx, scale=1.0):
     rng = random.Random(ctx["seed"] + 8)
     out = Outcome()
     out.rule = ("element trees: half parsed from generated schemas, half built through the DSL from generated dumps (explicit required "
                 "lists next to required properties, renamed properties, shared shapes); 8 values + 3 repeats per tree; a case is one call in "
-                "its history; all are non-trivial; distinct by SHA-256 of (element dump, value)")
+                "its history; all are non-trivial; distinct by SHA-256 of (element dump, value); before them the ambient family: trees "
+                "with `format` names from an open vocabulary at every sub-schema position (half assembled, half generated schemas with "
+                "formats sprinkled in), 9 values each validated twice, 3 of 4 histories with warnings escalated to errors")
     stats = {}
     drv = core.Driver()
     try:
         sg, vg, dg = SchemaGen(rng), ValueGen(rng), dsl.DumpGen(rng)
+        # first of all (its calls must be able to be the first of their kind in the process)
+        ambient_family(ctx, rng, drv, sg, vg, out, stats, int(N_AMBIENT[ctx["tier"]] * scale))
         n = int(N_CASES[ctx["tier"]] * scale)
         for i in range(n):
             if i % 2 == 0:
@@ -190,7 +392,7 @@ def replay_finding(finding):
     drv = core.Driver()
     try:
         vals = [core.NP if v == {"np": 1} else dsl.dec_val(v) for v in w["values"]]
-        check_tree(drv, el, w["element"], vals, out, stats, "replay")
+        check_tree(drv, el, w["element"], vals, out, stats, "replay", regime=w.get("regime", "ignore"))
     finally:
         drv.close()
     return bool(out.failures)
@@ -200,4 +402,4 @@ def replay(payload):
     case = payload.get("failure", {}).get("case")
     if not case:
         return True
-    return not replay_finding({"witness": {"element": case["element"], "values": case["values"]}})
+    return not replay_finding({"witness": {"element": case["element"], "values": case["values"], "regime": case.get("regime", "ignore")}})
